@@ -446,6 +446,30 @@ def dispatchGate (pat old new : Str) (today : Nat × Nat × Nat) : IncrResult :=
     | .error .unsupported => .unsupported
     | .error _ => .crash
 
+/-- `_normalize_set_version` for a pattern with braces: the text given with --set-version is read and rendered again by the
+    legacy engine (`1.02.3` ↦ `1.2.3` for `{semver}`); a PatternError of either step leaves the text as it is (the gate reports it) -/
+def legacyNormalizeSetVersion (pat v : Str) : Except V1Err Str :=
+  match v1ParseVersionInfo v pat with
+  | .error .pattern => .ok v
+  | .error e => .error e
+  | .ok vi =>
+    match v1FormatVersion vi pat with
+    | .error .pattern => .ok v
+    | r => r
+
+/-- `_normalize_set_version` for ANY pattern: `is_new_pattern` picks the engine -/
+def dispatchNormalize (pat v : Str) (today : Nat × Nat × Nat) : IncrResult :=
+  if isNewPattern pat then
+    match normalizeSetVersion pat v today with
+    | .ok s => .new s
+    | .error .unsupported => .unsupported
+    | .error _ => .crash
+  else
+    match legacyNormalizeSetVersion pat v with
+    | .ok s => .new s
+    | .error .unsupported => .unsupported
+    | .error _ => .crash
+
 /-- `bumpver test OLD PATTERN [flags] [--date D] [--set-version V]` for ANY pattern:
     `incr_dispatch` picks the engine by `hasV1Part`, the gate by `isNewPattern` -/
 def dispatchCliTest (old pat : Str) (fl : IncrFlags) (dateGiven : Bool) (date today : Nat × Nat × Nat)
@@ -455,7 +479,7 @@ def dispatchCliTest (old pat : Str) (fl : IncrFlags) (dateGiven : Bool) (date to
   else if dateGiven && fl.pinDate then .exit1
   else
     let r : IncrResult := match setVersion with
-      | some v => .new v
+      | some v => dispatchNormalize pat v today
       | none => dispatchIncr old pat fl date today
     match r with
     | .crash => .crash
